@@ -104,6 +104,8 @@ def _terms_of(e0):
             elif k == z3.Z3_OP_UNINTERPRETED and ch:
                 for c in ch:
                     add(c, "fn:" + e.decl().name())
+            elif k in (z3.Z3_OP_SEQ_NTH, z3.Z3_OP_SEQ_AT) and len(ch) == 2:
+                add(ch[1], "seq:nth")
             todo.extend(ch)
     if len(_TERM_CACHE) > 200000:
         _TERM_CACHE.clear()
@@ -158,6 +160,8 @@ def _triggers(q):
                         fams.add(f)
                 elif k == z3.Z3_OP_UNINTERPRETED and any(c.eq(probe) for c in ch):
                     fams.add("fn:" + e.decl().name())
+                elif k in (z3.Z3_OP_SEQ_NTH, z3.Z3_OP_SEQ_AT) and len(ch) == 2 and ch[1].eq(probe):
+                    fams.add("seq:nth")
                 todo.extend(ch)
         tr = fams if (ok and fams) else None
     except Exception:
@@ -282,9 +286,9 @@ def check(assertions, want_model=True):
     if r == z3.unsat:
         if abs_pairs is not None:
             # proved only with the sequence theory: accept it only if an independent solver process agrees
-            res2, raw2 = _external(["z3-new", f"-T:{EXT_TIMEOUT_S}"], s.to_smt2())
+            res2, raw2 = _external(["/usr/bin/z3", f"-T:{EXT_TIMEOUT_S}"], s.to_smt2())
             if res2 != "unsat":
-                res3, raw3 = _external(["/usr/bin/z3", f"-T:{EXT_TIMEOUT_S}"], s.to_smt2())
+                res3, raw3 = _external(["z3-new", f"-T:{EXT_TIMEOUT_S}"], s.to_smt2())
                 if res3 != "unsat":
                     _count("seq-unconfirmed")
                     if abs_model is not None:
@@ -301,13 +305,17 @@ def check(assertions, want_model=True):
         return Verdict("sat", "z3-inproc", secs, m, str(m) if m is not None else "")
     reason = s.reason_unknown()
     smt2 = s.to_smt2()
+    if os.environ.get("PYVC_DUMP"):
+        with open(os.path.join(os.environ["PYVC_DUMP"], f"unknown-{int(time.time()*1000)%100000000}.smt2"), "w") as fh_:
+            fh_.write(smt2)
     for name, cmd in (("cvc5", ["/usr/bin/cvc5", "--strings-exp", f"--tlimit={EXT_TIMEOUT_S*1000}"]),
                       ("z3-new", ["z3-new", f"-T:{EXT_TIMEOUT_S}"]),
                       ("z3-4.8", ["/usr/bin/z3", f"-T:{EXT_TIMEOUT_S}"])):
         res, raw = _external(cmd, smt2)
-        if res in ("unsat", "sat"):
+        if res == "unsat":
             _count(name)
             return Verdict(res, name, time.time() - t0, None, raw)
+        # an external `sat` carries no model to replay and the printed problem may differ in corner cases (partial functions): undecided, never a violation
     if abs_model is not None:
         # refuted after abstraction, undecided precisely: a candidate that must survive the native replay
         return Verdict("sat-abstract", "z3-inproc-abstracted", time.time() - t0, abs_model, reason, abs_pairs)
